@@ -6,7 +6,7 @@ from hypothesis import strategies as st
 
 from vf.core import Obs
 from vf.lab import lab_spec
-from vf.prog import World, execute, expect_sequential, flat_pairs, label_st, model_apply, resolve, vs_ok, vsel, wsel
+from vf.prog import ops_list, World, execute, expect_sequential, flat_pairs, label_st, model_apply, resolve, vs_ok, vsel, wsel
 
 PID = "C04"
 RULE = (
@@ -61,7 +61,7 @@ def _case(draw, focus, tier="quick"):
         }
     )
     op = st.one_of(op_any, op_any, op_2d)
-    return {"lab": spec, "device": draw(st.sampled_from(["evo", "fluent"])), "q": q, "ops": draw(st.lists(op, min_size=1, max_size=20 if tier == "quick" else 30))}
+    return {"lab": spec, "device": draw(st.sampled_from(["evo", "fluent"])), "q": q, "ops": draw(ops_list(op, 1, 20 if tier == "quick" else 30))}
 
 
 def strategy(tier, stratum):
